@@ -1269,6 +1269,27 @@ class StrDomain:
                         if f is not None and t:
                             env.sf[hay] = SF(max(f.minlen, len(t)), frozenset({ord(t[0])}) & f.first or frozenset({ord(t[0])}), f.last)
                         return env
+            # strncmp(p, "lit", n) == 0 with n >= strlen("lit") (or n = strlen("lit")): p starts with lit
+            for x, y in ((l, r), (r, l)):
+                x0 = strip(x, casts=True)
+                if x0.get("kind") == "CallExpr" and callee_name(x0) in ("strncmp", "strcmp") and op == "==" and self.eng.ce.try_eval(y) == 0:
+                    ca_ = call_args(x0)
+                    hay = self.sid(ca_[0])
+                    lit = strip(ca_[1], casts=True)
+                    if hay is not None and lit.get("kind") == "StringLiteral":
+                        t = _lit(lit)
+                        nlen = len(t)
+                        if callee_name(x0) == "strncmp":
+                            n0 = strip(ca_[2], casts=True)
+                            nv = self.eng.ce.try_eval(n0)
+                            if nv is None and n0.get("kind") == "CallExpr" and callee_name(n0) == "strlen" and \
+                                    strip(call_args(n0)[0], casts=True).get("kind") == "StringLiteral":
+                                nv = len(_lit(strip(call_args(n0)[0], casts=True)))
+                            nlen = min(nlen, nv) if nv is not None else 0
+                        f = env.sf.get(hay, SF())
+                        if f is not None and t and nlen >= 1:
+                            env.sf[hay] = SF(max(f.minlen, nlen), frozenset({ord(t[0])}) & f.first or frozenset({ord(t[0])}), f.last)
+                        return env
             # struct field against a constant
             for x, y in ((l, r), (r, l)):
                 p = self.fpath(x)
